@@ -202,7 +202,9 @@ def body_kernel(c):
     singular = bool(np.any(sv <= 1e-12 * sv[0])) or m > M.shape[0]
     z = reg.mandy_kb(x, y, phi)
     require(isinstance(z, np.ndarray) and z.shape == (c['dy'], m), 'kernel_shape', 'z has shape %s' % (getattr(z, 'shape', None),))
-    want = y @ np.linalg.pinv(M) @ M
+    # (the same cut as the guard band above: singular values of Psi below 1e-12 s_0 count as zero -- the Gram matrix squares them to
+    # below 1e-24, which double precision cannot tell from zero)
+    want = y @ np.linalg.pinv(M, rcond=1e-12) @ M
     close(z @ G, want, 1e-6, max(np.max(np.abs(y)), 1.0), 'kernel_value', 'z G vs y pinv(Psi) Psi (fitted values)')
     lab = {'kernel', 'singular_gram' if singular else 'regular_gram'}
     if c['dy'] > 1:
@@ -325,6 +327,31 @@ def body_arr(c):
                     'output %d: residual %.6e after %d sweeps, %.6e after %d' % (k, res[k], r, prev[k], r - 1))
         prev = res
     lab = {'arr', 'repeats%d' % c['repeats']}
+    if (c['seed'] % 3 == 0 and not illc and isinstance(x, np.ndarray) and x.dtype.kind == 'f' and x.flags.writeable
+            and not np.iscomplexobj(y)):
+        # streaming use: the caller refills the SAME data array with new snapshots (reversed order, shrunk by 0.8) and fits again with
+        # the same basis-function objects and the same guess -- the descent property then refers to the new data
+        x[...] = 0.8 * np.array(x[:, ::-1])
+        vals2 = [np.array([[c15.ref_value(s_, x[:, j]) for j in range(m)] for s_ in f]) for f in c['phi']]
+        psi2 = c15.psi_ref(vals2)
+        M2 = psi2.reshape(-1, m)
+        ok2 = spectra_ok(psi2, p, zero_allowed=True) and all(
+            not np.any((sv_ > 1e-12 * sv_[0]) & (sv_ < 1e-3 * sv_[0])) for sv_ in [np.linalg.svd(v_, compute_uv=False) for v_ in vals2])
+        if ok2:
+            nPsi2 = float(np.linalg.norm(M2, 2))
+            prev2 = [float(np.linalg.norm(g0 @ M2 - y[k])) for k in range(c['dy'])]
+            for r in range(1, min(c['repeats'], 2) + 1):
+                sol2 = reg.arr(x, y, phi, g, repeats=r, rcond=1e-13, progress=False)
+                res2 = []
+                for k, t in enumerate(sol2):
+                    require_consistent(t, 'consistent')
+                    xi = dense.contract(t.cores).reshape(-1)
+                    res2.append(float(np.linalg.norm(xi @ M2 - y[k])))
+                    meas = 20 * 2.3e-16 * float(np.linalg.norm(xi)) * nPsi2
+                    require(res2[k] <= prev2[k] + 1e-7 * ynorm + meas, 'arr_descent',
+                            'after the data array was refilled in place -- output %d: residual %.6e after %d sweeps, %.6e after %d' % (k, res2[k], r, prev2[k], r - 1))
+                prev2 = res2
+            lab.add('data_array_refilled_in_place')
     if c['dy'] > 1:
         lab.add('several_outputs')
     if c['exact']:
